@@ -108,6 +108,9 @@ pub struct PrintOpts {
     pub spaced_braces: bool,
     /// `[0-9A-Fa-f]` as `\h`, its negation as `\H`, U+001B as `\e`
     pub short_escapes: bool,
+    /// a scoped flag group that is the root or a direct member of the root concatenation, `(?on:X)`, as
+    /// `(?on)X(?-on)` (only used when no flag is set outside)
+    pub flags_toggle: bool,
 }
 
 impl PrintOpts {
@@ -124,6 +127,7 @@ struct P<'o> {
     opts: &'o PrintOpts,
     next_group: usize,
     nlit: usize,
+    depth: usize,
 }
 
 impl<'o> P<'o> {
@@ -155,6 +159,29 @@ impl<'o> P<'o> {
     }
     // prec: 0 = alt allowed, 1 = concat allowed, 2 = repeat allowed, 3 = atoms only
     fn print(&mut self, n: &Node, prec: u8) {
+        // depth 0 = root, 1 = direct member of the root concatenation, anything else deeper
+        let my_depth = self.depth;
+        self.depth = match (my_depth, n) {
+            (0, Concat(_)) => 1,
+            _ => 9,
+        };
+        self.print_node(n, prec, my_depth);
+        self.depth = my_depth;
+    }
+
+    fn print_node(&mut self, n: &Node, prec: u8, my_depth: usize) {
+        let saved = self.depth;
+        self.depth = my_depth;
+        let toggle = matches!(n, Flags(on, off, _) if self.opts.flags_toggle && my_depth <= 1 && !on.is_empty() && off.is_empty());
+        self.depth = saved;
+        if toggle {
+            if let Flags(on, _, c) = n {
+                self.toks.push(format!("(?{})", on));
+                self.print(c, 1);
+                self.toks.push(format!("(?-{})", on));
+                return;
+            }
+        }
         match n {
             Empty => {
                 if prec >= 2 {
@@ -398,7 +425,7 @@ impl Node {
     }
 
     pub fn tokens(&self, opts: &PrintOpts) -> Vec<String> {
-        let mut p = P { toks: Vec::new(), opts, next_group: 0, nlit: 0 };
+        let mut p = P { toks: Vec::new(), opts, next_group: 0, nlit: 0, depth: 0 };
         p.print(self, 0);
         p.toks
     }
